@@ -523,7 +523,8 @@ func runStoreHistory(c *core.Ctx, m *core.Model, r *rand.Rand, p storeProfile, h
 	maxkb := p.maxkbs[r.Intn(len(p.maxkbs))]
 	names := storeNames(r)
 	ops := genHistory(r, p, names, 5+r.Intn(p.maxOps))
-	dir := filepath.Join(workdir, fmt.Sprintf("fs-%s-%d-%d", p.name, c.Seed, hidx))
+	// the storage path is the operator's choice: also one with blanks and characters that mean something to globbing / formatting
+	dir := filepath.Join(workdir, fmt.Sprintf("fs-%s-%d-%d%s", p.name, c.Seed, hidx, []string{"", "", "", " [1] data", "-50%s-*?"}[hidx%5]))
 	os.MkdirAll(dir, 0o755)
 	defer os.RemoveAll(dir)
 	// once per process: park the file store's 4-digit id counter just below its wrap, so that the first histories
@@ -587,6 +588,25 @@ func runStoreHistory(c *core.Ctx, m *core.Model, r *rand.Rand, p storeProfile, h
 		}
 		if maxkb == 0 && om != of && o.kind != "visit" {
 			c.Fail("backends-equivalent", append([]string{}, trace...), "mem: "+om+"  file: "+of, "")
+		}
+		if o.kind == "visit" {
+			// a walk over all mailboxes shows every non-empty mailbox exactly as its own listing shows it
+			for bi, be := range []*backend{bm, bf} {
+				out := []string{om, of}[bi]
+				if !strings.HasPrefix(out, "boxes:") {
+					continue
+				}
+				shown := map[string]bool{}
+				for _, e := range strings.Split(strings.TrimPrefix(out, "boxes:"), "&") {
+					shown[e] = true
+				}
+				for _, nm := range names {
+					if ms, err := be.st.GetMessages(nm); err == nil && len(ms) > 0 && !shown[encImplList(be, ms)] {
+						c.Fail("visit-shows-every-mailbox", append([]string{}, trace...), fmt.Sprintf("%s store (path %q): mailbox %q lists %d messages but the walk over all mailboxes does not show it so", be.kind, be.dir, nm, len(ms)), "")
+						break
+					}
+				}
+			}
 		}
 		if o.kind == "list" {
 			// every listed message can be fetched by its id and is itself
